@@ -85,6 +85,14 @@ Lemma helper_unpadded_witness :
   helper_prove2value (big_of_bytes pi) <> bev (proof2hash pi).
 Proof. vm_compute. repeat split; discriminate. Qed.
 
+(* ... and agrees with the lottery value exactly when the proof does not start with a zero byte *)
+Lemma helper_value_guarded (pi : bytes) :
+  bytes_ok pi -> hd 1 pi <> 0 -> helper_prove2value (big_of_bytes pi) = bev (proof2hash pi).
+Proof.
+  intros Hok Hh. unfold helper_prove2value, bytes_of_big, big_of_bytes.
+  rewrite beb_bev by assumption. reflexivity.
+Qed.
+
 (* isCanonical as written in Go accepts everything *)
 Lemma shiftr8_byte x : N.shiftr (x mod 2 ^ 8) 8 = 0.
 Proof.
